@@ -190,3 +190,15 @@ void h_print_hooks(void)
 	CHECK("C19", cfg_opt_set_print_func(NULL, cfgv_pf) == NULL && cfg_set_print_filter_func(NULL, cfgv_filter_own) == NULL, "NULL option / context: nothing installed");
 	CANARY("print_hooks");
 }
+
+/* contract::cfg_indent(fp, depth): exactly 2*depth blanks, nothing else, for every depth */
+void h_indent(void)
+{
+	int depth = nondet_int(); _Bool ok = 1;
+	__CPROVER_assume(depth >= 0 && depth <= 24);
+	out_reset();
+	cfg_indent(&g_fp_obj, depth);
+	for (unsigned i = 0; i < OUTMAX; i++) if (i < g_outn && g_out[i] != ' ') ok = 0;
+	CHECK("C19,C05", !g_out_overflow && g_outn == (unsigned)(2 * depth) && ok, "indentation is exactly two blanks per depth level, at every depth");
+	CANARY("indent");
+}
